@@ -83,6 +83,13 @@ def segment_safe(rng, grid, info):
     return grid
 
 
+def _is_ns(c):
+    import re
+    if isinstance(c, str):
+        return re.search(r"\.\d{7,9}\s*$", c) is not None
+    return bool(getattr(c, "nanosecond", 0))
+
+
 def gen_stream(rng, native):
     """-> rows, tables [(start_row, n_rows, name)], element kinds"""
     rows, tables, kinds = [], [], []
@@ -108,6 +115,9 @@ def gen_stream(rng, native):
         if el == "table":
             grid, info = c02.wf_grid(rng, native)
             grid = segment_safe(rng, grid, info)
+            grid = c08.inject_ns(rng, grid, info, native)
+            if any(k == "datetime" for k in info["kinds"]):
+                kinds.append("ns datetime" if any(_is_ns(c) for r in grid[2:] for c in r) else "us datetime")
             name = grid[0][0][2:]
             tables.append((len(rows), len(grid), name[:-1] if name.endswith("*") else name))
             rows.extend(grid)
@@ -166,6 +176,10 @@ def excel_safe(rows):
             return "2020-01-02"
         if isinstance(c, str):
             return "".join(ch for ch in c if ch in "\t\n" or ord(ch) >= 32)
+        if hasattr(c, "to_pydatetime"):
+            with warnings.catch_warnings():
+                warnings.simplefilter("ignore")
+                return c.to_pydatetime()
         return c
     return [[cell(c) for c in r] for r in rows]
 
@@ -451,7 +465,8 @@ def check_unknown_form(out, case, rows, text, xlsx, to):
 def run(tier, seed, model_ok, translator, search=False):
     import openpyxl
     out = Outcome()
-    out.rule = ("multi-block inputs: well-formed tables of every column kind (text and native cells, markers, missing values, "
+    out.rule = ("multi-block inputs: well-formed tables of every column kind (text and native cells, markers, missing values, datetimes down to "
+                "nanoseconds (a column with one such value is held as datetime64[ns]), "
                 "both orientations, zero rows, padding, comments after the names) interleaved with metadata, directives, "
                 "template rows, comments, late `key:` rows and blank lines with payload, with and without blank separators, "
                 "25 % with a read filter; the three readers of a case are consumed one after the other (30 %), in lock-step (40 %) "
